@@ -21,7 +21,7 @@ TRUSTED_BASE = ['props/C06.py reference parser for the ground syntax (oracle on 
                 'std::ostream formatting of int/unsigned modelled by Lib/Dec.v print_Z/print_nat']
 ASSUMPTIONS = ['atoms in 1..2^31-1, literals/weights/bounds/priorities in the range of int, enum arguments within their enum; named atoms are small '
                '(AspifTextOutput::addAtom allocates a table of size atom+1)',
-               'names and #show terms are ground terms that do not collide with the spelling of another atom (theorems: identifier names)',
+               'names and #show terms are ground terms that do not collide with the spelling of another atom (theorems: identifiers with optional argument list)',
                'theory terms are acyclic; compound/tuple codes are term ids or -1..-3; theory atom ids and term/element ids are small',
                'an atom is not both named by an output directive and defined by a theory atom (the writer refuses this with a logic_error: reported as known finding)']
 TECHNIQUE = 'Coq proof about an executable model (renderer + reference parser) + differential correspondence with the implementation'
@@ -29,7 +29,8 @@ DESIGN_REF = 'DESIGN.md section 5, C06'
 LEVEL_TEXT = ('Machine-checked proof (Coq) that a reference parser for the ground syntax, applied to the text the modelled writer emits for a step, '
               'returns one statement per directive in order with equal heads/kinds/priorities/values/modifiers/conditions and satisfaction-equivalent bodies; '
               'the model is tied to AspifTextOutput by byte-exact differential correspondence and an independent python reference parser on the implementation.')
-LEVEL_NOTE = ('Theorems are stated for theory-free steps with identifier names (partial); theory atoms are covered by model + correspondence + oracle. '
+LEVEL_NOTE = ('Theorems are stated for theory-free steps whose names are identifiers with optional argument lists (partial); theory atoms are covered by '
+              'model + correspondence + oracle, and the full statement for them is refuted in Coq (c06_theory_structure_refuted = known finding). '
               'Trusted: Coq kernel, extraction (cross-checked), harness, translator, python oracle.')
 
 HEU = ['level', 'sign', 'factor', 'init', 'true', 'false']
@@ -602,19 +603,23 @@ def oracle(case, obs):
         # several steps without incremental headers: parse greedily per step by rendering length is impossible without the
         # model; compare the whole text against the concatenated directives with per-step theory reset
         pos = 0
+        soft = []
+        SOFT = {'theory-nested-operator-ambiguous'}
         for sdirs in steps:
             st['terms'], st['elems'], st['tatoms'], st['frame'] = {}, {}, [], 0
             # find the longest prefix of the remaining lines that this step accounts for: number of statements is known
             nst = sum(1 for c in sdirs if c[0] in (4, 5, 6, 7, 9, 10, 11, 12)) + sum(1 for c in sdirs if c[0] in (17, 18) and c[1] == 0)
             lines = text[pos:].split('\n')[:-1]
             ok = None
+            last = []
             for extra in range(sum(1 for c in sdirs if c[0] == 8), -1, -1):
                 cand = ''.join(l + '\n' for l in lines[:nst + extra])
                 import copy
                 st2 = copy.deepcopy(st)
                 r = step_oracle(sdirs, cand, st2)
-                if not r:
+                if set(r) <= SOFT:
                     ok = (cand, st2)
+                    soft += r
                     break
                 last = r
             if ok is None:
@@ -623,7 +628,7 @@ def oracle(case, obs):
             st = ok[1]
         if pos != len(text):
             return ['extra-statements']
-        return []
+        return sorted(set(soft))
     for sdirs, part in zip(steps, parts):
         r = step_oracle(sdirs, part, st)
         if r:
